@@ -205,7 +205,7 @@ def ask_driver(requests, jobs=None):
     """Pipe request lines to the Lean driver (several processes in parallel), return answer lines."""
     if not requests:
         return []
-    jobs = jobs or min(14, max(1, len(requests) // 500))
+    jobs = jobs or min(14, max(1, len(requests) // 8))
     if jobs == 1:
         return _ask_driver_one(requests)
     # interleave so that expensive requests (often generated together) spread over the workers
@@ -228,9 +228,12 @@ def run_suite(binary, args, seed, timeout=3600, extra_env=None):
     p = subprocess.run([binary] + args, stdout=subprocess.PIPE, stderr=subprocess.PIPE, text=True,
                        timeout=timeout, env=e)
     cases, stats, oracle, notes = [], {}, [], []
+    last_try = None
     for line in p.stdout.split("\n"):
         f = line.split("\t")
-        if f[0] == "CASE" and len(f) >= 3:
+        if f[0] == "TRY" and len(f) >= 2:
+            last_try = f[1]
+        elif f[0] == "CASE" and len(f) >= 3:
             cases.append((f[1], f[2]))
         elif f[0] == "STAT" and len(f) >= 3:
             try:
@@ -242,6 +245,10 @@ def run_suite(binary, args, seed, timeout=3600, extra_env=None):
         elif f[0] == "NOTE":
             notes.append("\t".join(f[1:]))
     if p.returncode != 0:
+        if last_try is not None:
+            # the process died while the implementation was working on an announced input
+            oracle.append(("implementation-aborted-or-killed(exit %d)" % p.returncode, last_try))
+            return dict(cases=cases, stats=stats, oracle=oracle, notes=notes)
         raise Failure("harness suite %s %s exited with %d" % (os.path.basename(binary), " ".join(args), p.returncode),
                       (p.stderr or "")[-3000:])
     return dict(cases=cases, stats=stats, oracle=oracle, notes=notes)
